@@ -201,16 +201,16 @@ func PostURL(ctx context.Context, dst []byte, url string, postArgs *protocol.Arg
 
 func doRequestFollowRedirectsBuffer(ctx context.Context, req *protocol.Request, dst []byte, url string, c Doer) (statusCode int, body []byte, err error) {
 	resp := protocol.AcquireResponse()
-	bodyBuf := resp.BodyBuffer()
-	oldBody := bodyBuf.B
-	bodyBuf.B = dst
 
 	statusCode, _, err = DoRequestFollowRedirects(ctx, req, resp, url, defaultMaxRedirectsCount, c)
 
 	// In HTTP2 scenario, client use stream mode to create a request and its body is in body stream.
 	// In HTTP1, only client recv body exceed max body size and client is in stream mode can trig it.
-	body = resp.Body()
-	bodyBuf.B = oldBody
+	//
+	// The body is copied into dst. dst must not be lent to the response as its body buffer: Do resets
+	// the response first, which hands the body buffer - and with it the caller's dst - to the pool the
+	// body buffers of all responses (those of the server's request contexts too) are taken from.
+	body = append(dst[:0], resp.Body()...)
 	protocol.ReleaseResponse(resp)
 
 	return statusCode, body, err
